@@ -227,6 +227,11 @@ func (g *gen) observe(legacy bool, q, field string, mapping seq.Mapping, sens bo
 }
 
 func (g *gen) lexCase(q string, class string) {
+	defer func() {
+		if p := recover(); p != nil {
+			g.w.Violate("lexer-panic", fmt.Sprintf("the SeqQL lexer panicked: %v", p), map[string]any{"query": q, "query_bytes": bytesCoq([]byte(q))})
+		}
+	}()
 	toks, ended := parser.VerifC11Lex(q, len(q)+2)
 	coq := "None"
 	var tj []string
@@ -681,7 +686,7 @@ func (g *gen) multiCase() {
 func (g *gen) extCases(tier string) {
 	nRound, nText, nMulti := 1000, 1000, 500
 	if tier == "thorough" {
-		nRound, nText, nMulti = 30000, 30000, 12000
+		nRound, nText, nMulti = 12000, 12000, 5000
 	}
 	for i := 0; i < nRound; i++ {
 		g.roundCase()
